@@ -837,6 +837,8 @@ Definition expected_reply (limit : Z) (password : bytes) (args : list bytes) : o
                    concat (map (fun k => if find_sub k (bs "nil") then bs "$-1" ++ crlf else conv_value k) keys))
       else if N.eqb t ReqDel then Some ([58] ++ itoa_nat (length keys) ++ crlf)
       else if (N.eqb t ReqMset || N.eqb t ReqSet)%bool then Some StatusOK
+      else if find_sub (if (N.eqb t ReqEval || N.eqb t ReqEvalsha)%bool then nth 3 args [] else key) (bs "noauth") then
+        Some (bs "-NOAUTH Authentication required." ++ crlf)
       else if find_sub key (bs "err") then
         Some (bs "-ERR bad " ++ key ++ crlf)
       else if N.eqb t ReqGet then Some (conv_value key)
